@@ -64,6 +64,9 @@ func (g Gateway) Heartbeat(_ context.Context, in *hydrapb.HeartbeatRequest) (*hy
 	}, nil
 }
 
+// maxLockTTLMillis is the largest TTL whose time.Duration still fits (math.MaxInt64 / 1e6).
+const maxLockTTLMillis = 9223372036854
+
 func (g Gateway) Lock(ctx context.Context, in *hydrapb.LockRequest) (*hydrapb.LockResponse, error) {
 
 	defer handlePanic()
@@ -78,6 +81,11 @@ func (g Gateway) Lock(ctx context.Context, in *hydrapb.LockRequest) (*hydrapb.Lo
 	if in.GetTTL() <= 1000 {
 		// set the TTL to 1000 milliseconds to prevent too short TTLs
 		in.TTL = 1000
+	}
+	// time.Duration counts nanoseconds in an int64: a larger TTL would wrap around to a negative
+	// duration and the lock would be released the moment it is granted
+	if in.GetTTL() > maxLockTTLMillis {
+		in.TTL = maxLockTTLMillis
 	}
 
 	// what is the lock key is an empty string
